@@ -13,7 +13,8 @@ cp /verif/known_findings.json "$tmp/root/" 2>/dev/null
 grep -rl '/repo' "$tmp/harness" --include=*.rs --include=*.toml | xargs -r sed -i "s#/repo#$wt#g"
 sed -i "s#target-dir = .*#target-dir = \"${MT_TARGET:-$tmp/target}\"#" "$tmp/harness/.cargo/config.toml"
 cp "$wt/Cargo.lock" /dev/null 2>&1
-export CARGO_NET_OFFLINE=true VERIF_ROOT="$tmp/root"
+export CARGO_NET_OFFLINE=true VERIF_ROOT="$tmp/root" CARGO_TARGET_DIR="${MT_TARGET:-$tmp/target}"
+unset RUSTFLAGS
 cd "$tmp/harness" || exit 2
 case "$id" in
   C20) pkg=h_loom; bin=h_loom; pre="driver" ;;
